@@ -570,6 +570,12 @@ bool Interp::doBinary(const Step& s)
     if (alias == "ia" && fa == fc) { e = new dd_edge(*W.slots[size_t(a)].e); pa = e; R.labels.add("result_aliases_operand"); }
     else if (alias == "ib" && fb == fc) { e = new dd_edge(*W.slots[size_t(b)].e); pb = e; R.labels.add("result_aliases_operand"); }
     else if (alias == "iab" && fa == fc && a == b) { e = new dd_edge(*W.slots[size_t(a)].e); pa = pb = e; R.labels.add("result_aliases_operand"); }
+    else if (alias == "used") {
+        // the result edge already holds some other function of the result forest
+        for (size_t sl = 0; sl < W.slots.size() && !e; sl++)
+            if (int(sl) != a && int(sl) != b && liveSlot(int(sl)) && W.slots[sl].f == fc) { e = new dd_edge(*W.slots[sl].e); R.labels.add("result_edge_was_in_use"); }
+        if (!e) e = new dd_edge(W.F[fc]);
+    }
     else e = new dd_edge(W.F[fc]);
     dd_edge beforeA(*W.slots[size_t(a)].e), beforeB(*W.slots[size_t(b)].e);
     bool threw = false; int code = -1; std::string ename;
